@@ -126,6 +126,17 @@ def generate(seed, tier, prop):
         ctrls.append({"element": ft, "variable": "in_service", "element_index": fidx, "profile": names,
                       "scale_factor": 1.0, "order": rng.choice([-1, 0, 1]), "level": rng.choice([-1, 0, 0, 1]),
                       "initial_run": False})
+    # topology switched by a profile (valve opened / pipe or consumer in service): the set of active elements and
+    # with it the structure of the system matrix changes from step to step
+    if meta["toggles"] and rng.random() < 0.3:
+        (tt, ti, tc) = rng.choice(meta["toggles"])
+        cur = True
+        for o in program["ops"]:
+            if netmodel.TABLE_OF.get(o["fn"]) == tt and o["kw"].get("index") == ti:
+                cur = bool(o["kw"].get(tc, True))
+        profiles["tg"] = [cur if rng.random() < 0.5 else (not cur) for _ in range(T)]
+        ctrls.append({"element": tt, "variable": tc, "element_index": [ti], "profile": ["tg"], "scale_factor": 1.0,
+                      "order": rng.choice([-1, 0, 1]), "level": rng.choice([-1, 0]), "initial_run": False})
     # infeasible steps -------------------------------------------------------------------------
     bad_steps = []
     if not fault_free and ctrls and rng.random() < 0.6:
@@ -155,6 +166,8 @@ def generate(seed, tier, prop):
             kw["nonlinear_method"] = "automatic"
         if not fault_free and rng.random() < 0.1:
             kw["iter"] = rng.choice([1, 2, 3])
+        if rng.random() < 0.2:
+            kw["only_update_hydraulic_matrix"] = True   # (without reuse: every step still starts from scratch)
         runs.append({"time_steps": steps, "form": form, "cod": rng.random() < 0.6, "kw": kw,
                      "max_iter": rng.choice([30, 30, 5])})
     faults = []
@@ -182,9 +195,14 @@ def _build_world(trace, with_observer):
     net = netmodel.build(trace["program"])
     prof = trace["profiles"]
     T = trace["n_steps"]
-    df = pd.DataFrame({k: list(v) + [v[-1]] * (T - len(v)) if len(v) < T else list(v)[:T] for k, v in sorted(prof.items())},
-                      index=list(range(T)))
+    cols = {k: list(v) + [v[-1]] * (T - len(v)) if len(v) < T else list(v)[:T] for k, v in sorted(prof.items())}
+    # switching profiles live in a data source of their own: a row of a frame that mixes bool and float columns
+    # comes out of pandas as an object array, which then changes the dtype of the boolean table column
+    isb = {k: all(isinstance(x, bool) for x in v) for k, v in cols.items()}
+    df = pd.DataFrame({k: v for k, v in cols.items() if not isb[k]}, index=list(range(T)))
     ds = SimData(df)
+    dfb = pd.DataFrame({k: v for k, v in cols.items() if isb[k]}, index=list(range(T)), dtype=bool)
+    dsb = SimData(dfb) if len(dfb.columns) else None
     for c in trace["controllers"]:
         el = c["element"]
         if el not in net or not len(net[el]):
@@ -192,10 +210,11 @@ def _build_world(trace, with_observer):
         idx = c["element_index"]
         ok = all(i in net[el].index for i in (idx if isinstance(idx, list) else [idx]))
         names = c["profile"] if isinstance(c["profile"], list) else [c["profile"]]
-        if not ok or any(n not in df.columns for n in names):
+        src = dsb if (dsb is not None and all(n in dfb.columns for n in names)) else ds
+        if not ok or any(n not in src.df.columns for n in names):
             continue
         ConstControl(net, element=el, variable=c["variable"], element_index=idx, profile_name=c["profile"],
-                     data_source=ds, scale_factor=c["scale_factor"], order=c["order"], level=c["level"],
+                     data_source=src, scale_factor=c["scale_factor"], order=c["order"], level=c["level"],
                      initial_run=c["initial_run"])
     obs = None
     if with_observer:
